@@ -530,7 +530,21 @@ fn bigfp(a: &Args) -> i32 {
         let mut r = rng::Rng::new(mix3(seed, 0xB16F, i));
         let target = [140_000usize, 200_000, 300_000, 520_000, 1_100_000][(i % 5) as usize];
         let mut text = String::new();
+        let mut next_long_comment = 60_000usize;
         while text.len() < target {
+            // every ~100 KB a block comment of 40-70 KB (recipe-like text inside), opened in one of the
+            // ways a comment can be opened: whatever splits a big input into pieces has to get
+            // multi-line constructs that are longer than a piece right
+            if text.len() >= next_long_comment {
+                next_long_comment = text.len() + 100_000;
+                text.push_str(r.pick_str(&["[- ", "[-]", "[--", "[-\n", "x [-"]));
+                let until = text.len() + 40_000 + r.below(30_000);
+                while text.len() < until {
+                    // (the body contains no comment delimiters of its own, like a real commented-out passage)
+                    text.push_str(&gen::recipe_large(&mut r).replace("-]", "- ]").replace("[-", "[ -"));
+                }
+                text.push_str(" -]\n\n");
+            }
             text.push_str(&gen::recipe_large(&mut r));
             // now and then a line made of tokens from the library's own source and of the
             // degenerate comment forms (whatever a chunked or parallel scanner cuts wrongly)
@@ -848,6 +862,18 @@ fn dispatch(cmd: &str, a: &Args) -> i32 {
         "depth" => depth_worker(a),
         "bigfp" => bigfp(a),
         "storm" => storm(a),
+        // decide once, in a process of its own, which large inputs the pool uses (see Pool::load)
+        "probe-pool" => {
+            let big = Pool::probe_big_inputs();
+            let out = a.str("out", "");
+            let js = serde_json::to_string(&big).unwrap();
+            if out.is_empty() {
+                println!("{}", js.len());
+            } else {
+                std::fs::write(&out, js).unwrap_or_else(|e| die(&format!("{out}: {e}")));
+            }
+            0
+        }
         "approx" => approx_sweep(a),
         "c11" => c11::worker(a),
         "replay" => replay(a),
